@@ -14,6 +14,8 @@
 //! two introductions of a colliding imported name (the name's own definition wins when it stands on a later line
 //! number than the colliding import statement).
 //! C15_STUB=stmt locates every error at the first line of the planted statement instead of at the offending element.
+//! C15_STUB=first reports a duplicate definition (dd_ kinds) at the FIRST writing of the name; C15_STUB=decoy loses one
+//! line of a conflict kind's location when a `<<<<<<<` look-alike stands earlier in the file.
 //! `cross` renders only the cases named by C15_SHAPES / C15_KINDS / C15_FILES (comma lists) when these are set.
 
 use rand::{Rng, SeedableRng};
@@ -24,13 +26,65 @@ use vharness::project::{compile, CompileResult, Project};
 use vharness::util::*;
 
 // index order must equal SyltDiag!Kinds / Files / Poss / Shapes
-const KINDS: [&str; 31] = [
+const OLD_KINDS: [&str; 31] = [
     "syn_rparen", "syn_char", "unresolved", "dup_global", "const_local", "const_global", "const_param",
     "op_mismatch", "arg_mismatch", "annot_mismatch", "break_outside", "conflict", "dup_import", "dup_from_import",
     "dup_use_use", "dup_from_from", "dup_from_use", "dup_use_from",
     "ml_arg_paren", "ml_arg_prime", "ml_arg_nested", "ml_unres_arg", "ml_unres_list", "ml_unres_tuple", "ml_unres_blob",
     "ml_from_2nd", "ml_from_3rd", "ml_from_last", "ml_op_paren", "ml_op_cond", "ml_const_lambda",
 ];
+const CONFLICT_KINDS2: [&str; 4] = ["conflict_eq", "conflict_gt", "conflict_block", "conflict_two"];
+// kinds of definition of a top-level name (SyltDiag!DefForms): planted spelling after the name, name the templates
+// define with that kind (SyltDiag!PlantDef / OrigName)
+const DEF_FORMS: [(&str, &str, &str); 4] = [
+    ("val", " :: 7", "Dv"),
+    ("fn", " :: fn -> int do ret 7 end", "Df"),
+    ("blob", " :: blob { z: int }", "Db"),
+    ("enum", " :: enum Za, Zb end", "De"),
+];
+// imports that bring a name in (SyltDiag!ImpForms / PlantImp): spelling before the name
+const IMP_FORMS: [(&str, &str); 2] = [("use", "use /twin as "), ("from", "from /twin use lv as ")];
+const DECL_KINDS: [&str; 9] = [
+    "dup_field1", "dup_variant1", "ml_dup_field_adj", "ml_dup_field_gap", "ml_dup_field_last", "ml_dup_field_col",
+    "ml_dup_variant_adj", "ml_dup_variant_gap", "ml_dup_variant_last",
+];
+const MARK_SHAPES: [&str; 7] =
+    ["mk_lt_cmt", "mk_lt_str", "mk_lt_mlstr", "mk_eq_mlstr", "mk_gt_mlstr", "mk_eqgt_cmt", "mk_lt_two"];
+
+/// SyltDiag!Kinds: the older kinds, the further conflict kinds, dd_<planted>_<orig> (planted fastest), di_<import>_<orig> (import fastest), the declarations.
+fn kinds() -> &'static Vec<String> {
+    static K: std::sync::OnceLock<Vec<String>> = std::sync::OnceLock::new();
+    K.get_or_init(|| {
+        let mut v: Vec<String> = OLD_KINDS.iter().chain(CONFLICT_KINDS2.iter()).map(|s| s.to_string()).collect();
+        for (of, _, _) in DEF_FORMS.iter() {
+            for (pf, _, _) in DEF_FORMS.iter() {
+                v.push(format!("dd_{}_{}", pf, of));
+            }
+        }
+        for (of, _, _) in DEF_FORMS.iter() {
+            for im in IMP_FORMS.iter() {
+                v.push(format!("di_{}_{}", im.0, of));
+            }
+        }
+        v.extend(DECL_KINDS.iter().map(|s| s.to_string()));
+        v
+    })
+}
+
+/// (import form, kind of the templates' definition) of a di_ kind
+fn di_pair(kind: &str) -> Option<(usize, usize)> {
+    let rest = kind.strip_prefix("di_")?;
+    let (im, of) = rest.split_once('_')?;
+    Some((IMP_FORMS.iter().position(|d| d.0 == im)?, DEF_FORMS.iter().position(|d| d.0 == of)?))
+}
+
+/// (planted kind of definition, kind of the templates' definition) of a dd_ kind
+fn dd_pair(kind: &str) -> Option<(usize, usize)> {
+    let rest = kind.strip_prefix("dd_")?;
+    let (pf, of) = rest.split_once('_')?;
+    Some((DEF_FORMS.iter().position(|d| d.0 == pf)?, DEF_FORMS.iter().position(|d| d.0 == of)?))
+}
+
 const FILES: [&str; 3] = ["main", "sibling", "sub"];
 const POSS: [&str; 5] = ["top_first", "top_mid", "top_last", "fn_body", "if_branch"];
 const BASE_SHAPES: [&str; 9] = [
@@ -66,6 +120,7 @@ fn shapes() -> Vec<String> {
         }
     }
     v.extend(COMBO_SHAPES.iter().map(|s| s.to_string()));
+    v.extend(MARK_SHAPES.iter().map(|s| s.to_string()));
     v
 }
 
@@ -103,7 +158,8 @@ fn is_top(pos: &str) -> bool {
 fn applicable(kind: &str, pos: &str, rel: &str) -> bool {
     (match kind {
         // a global can only be defined, a module only be imported at the top level
-        k if k.starts_with("dup_") || k.starts_with("ml_from_") => is_top(pos),
+        // (nor a type be declared: dup_field / dup_variant)
+        k if k.starts_with("dup_") || k.starts_with("ml_from_") || k.starts_with("dd_") || k.starts_with("di_") || k.starts_with("ml_dup_") => is_top(pos),
         "const_local" => !is_top(pos), // a one-line function cannot hold a definition and an assignment
         _ => true,
     }) && (rel == "def_earlier" || is_from_kind(kind)) // the layout of the imported modules only matters to name imports
@@ -112,8 +168,14 @@ fn applicable(kind: &str, pos: &str, rel: &str) -> bool {
 /// The planted construct's spelling. Statement kinds cannot stand at the top level (only definitions can):
 /// there they are wrapped in a one-line function definition, which is still one construct on one line.
 /// The planted construct's spelling (same table as SyltDiag!Construct; TLC checks the text at the marker).
-fn construct(kind: &str, top: bool) -> &'static str {
-    match (kind, top) {
+fn construct(kind: &str, top: bool) -> String {
+    if let Some((pf, of)) = dd_pair(kind) {
+        return format!("{}{}", DEF_FORMS[of].2, DEF_FORMS[pf].1);
+    }
+    if let Some((im, of)) = di_pair(kind) {
+        return format!("{}{}", IMP_FORMS[im].1, DEF_FORMS[of].2);
+    }
+    (match (kind, top) {
         ("syn_rparen", _) => "pz :: )",
         ("syn_char", _) => "pz :: $",
         ("unresolved", _) => "pz :: nope",
@@ -135,15 +197,20 @@ fn construct(kind: &str, top: bool) -> &'static str {
         ("dup_from_from", _) => "from /twin use lv as lw",
         ("dup_from_use", _) => "from /twin use lv as leaf",
         ("dup_use_from", _) => "use /twin as lw",
+        ("conflict_eq", _) => "=======",
+        ("conflict_gt", _) => ">>>>>>> other",
+        ("dup_field1", _) => "Pb :: blob { x: int, y: int, x: str }",
+        ("dup_variant1", _) => "Pe :: enum Va, Vb int, Va str end",
         _ => tool_error("unknown kind"),
-    }
+    })
+    .to_string()
 }
 
 /// The planted form: its lines as (relative indentation level, text) and the offending element as
 /// (line of the form, characters before it on that line) - same table as SyltDiag!FormLines / Elem; TLC checks the
 /// whole form and the element's spelling at the marker. The older kinds are one line.
-fn form(kind: &str, top: bool) -> (Vec<(usize, &'static str)>, (usize, usize)) {
-    match kind {
+fn form(kind: &str, top: bool) -> (Vec<(usize, String)>, (usize, usize)) {
+    let (lines, el): (Vec<(usize, &str)>, (usize, usize)) = match kind {
         "ml_arg_paren" => (vec![(0, "pz :: helper("), (1, "1,"), (1, "\"s\","), (0, ")")], (3, 0)),
         "ml_arg_prime" => (vec![(0, "pz :: helper' 1,"), (1, "\"s\"")], (2, 0)),
         "ml_arg_nested" => (
@@ -179,7 +246,39 @@ fn form(kind: &str, top: bool) -> (Vec<(usize, &'static str)>, (usize, usize)) {
             (3, 0),
         ),
         "ml_const_lambda" => (vec![(0, "pz :: apply(fn do"), (1, "ga = 5"), (0, "end)")], (2, 0)),
-        _ => (vec![(0, construct(kind, top))], (1, 0)),
+        "conflict_block" => (
+            vec![(0, "<<<<<<< HEAD"), (0, "pa :: 1"), (0, "======="), (0, "pa :: 2"), (0, ">>>>>>> other")],
+            (1, 0),
+        ),
+        "conflict_two" => (vec![(0, "<<<<<<< HEAD"), (0, "pa :: \"<<<<<<< mine\""), (0, "<<<<<<< other")], (1, 0)),
+        "ml_dup_field_adj" => (vec![(0, "Pb :: blob {"), (1, "x: int,"), (1, "x: str,"), (0, "}")], (3, 0)),
+        "ml_dup_field_gap" => (
+            vec![(0, "Pb :: blob {"), (1, "x: int,"), (1, "y: int,"), (1, "x: str,"), (1, "z: int,"), (0, "}")],
+            (4, 0),
+        ),
+        "ml_dup_field_last" => (
+            vec![(0, "Pb :: blob {"), (1, "x: int,"), (1, "y: int,"), (1, "z: int,"), (1, "x: str"), (0, "}")],
+            (5, 0),
+        ),
+        "ml_dup_field_col" => (vec![(0, "Pb :: blob {"), (1, "x: int,"), (1, "y: int, x: str,"), (0, "}")], (3, 8)),
+        "ml_dup_variant_adj" => (vec![(0, "Pe :: enum"), (1, "Va,"), (1, "Va,"), (0, "end")], (3, 0)),
+        "ml_dup_variant_gap" => (
+            vec![(0, "Pe :: enum"), (1, "Va,"), (1, "Vb int,"), (1, "Va str,"), (1, "Vc,"), (0, "end")],
+            (4, 0),
+        ),
+        "ml_dup_variant_last" => (vec![(0, "Pe :: enum"), (1, "Va"), (1, "Vb"), (1, "Vc"), (1, "Va"), (0, "end")], (5, 0)),
+        "dup_field1" => return (vec![(0, construct(kind, top))], (1, 29)),
+        "dup_variant1" => return (vec![(0, construct(kind, top))], (1, 23)),
+        _ => return (vec![(0, construct(kind, top))], (1, 0)),
+    };
+    (lines.into_iter().map(|(l, t)| (l, t.to_string())).collect(), el)
+}
+
+/// SyltDiag!Elem2: the second offending element (line of the form, column) of a form that has two.
+fn form_elem2(kind: &str) -> Option<(usize, usize)> {
+    match kind {
+        "conflict_two" => Some((3, 0)),
+        _ => None,
     }
 }
 
@@ -198,6 +297,13 @@ fn shape_lines(shape: &str, n: usize, top: bool) -> Option<Vec<String>> {
         "cmt_onlynl" => vec![CMT.to_string(), wrap_str("init", content("onlynl"), n, top)],
         "endnl_cmt" => vec![format!("{} // trailing: x :: ) $", wrap_str("init", content("endnl"), n, top))],
         "nonascii_endnl" => vec![format!("s{} :: \"grüße → ✓ 日本\n\"", n)],
+        "mk_lt_cmt" => vec!["// after a merge look for \"<<<<<<< HEAD\" in here".to_string()],
+        "mk_lt_str" => vec![wrap_str("init", "<<<<<<< HEAD", n, top)],
+        "mk_lt_mlstr" => vec![wrap_str("init", "first\n  <<<<<<< HEAD", n, top)],
+        "mk_eq_mlstr" => vec![wrap_str("init", "first\n=======\nsecond", n, top)],
+        "mk_gt_mlstr" => vec![wrap_str("init", "first\n>>>>>>> other", n, top)],
+        "mk_eqgt_cmt" => vec!["// =======".to_string(), "// >>>>>>> other".to_string()],
+        "mk_lt_two" => vec!["// <<<<<<< HEAD and <<<<<<<<<<<<<< again".to_string(), wrap_str("init", "x <<<<<<< y", n, top)],
         _ => {
             let rest = shape.strip_prefix("str_")?;
             let (ct, pl) = rest.split_once('_')?;
@@ -216,10 +322,13 @@ struct Line {
     col: usize,
     /// this line is the first line of the planted form
     fstart: bool,
+    /// this line holds the second offending element (forms with two), `col2` characters into its text
+    planted2: bool,
+    col2: usize,
 }
 
 fn ln(level: usize, text: &str) -> Line {
-    Line { level, text: text.to_string(), planted: false, col: 0, fstart: false }
+    Line { level, text: text.to_string(), planted: false, col: 0, fstart: false, planted2: false, col2: 0 }
 }
 
 /// Where something can be put in a file template. `Nested(n)`: inside n further ifs inside the if-branch.
@@ -271,6 +380,13 @@ fn template(file: &str, depth: usize, inserts: &[(Place, Line)]) -> Vec<Line> {
     out.push(ln(0, "apply :: fn f: fn -> void do"));
     out.push(ln(1, "f()"));
     out.push(ln(0, "end"));
+    // one definition of every kind (SyltDiag!OrigName): the dd_ kinds write a second one against them
+    out.push(ln(0, "Dv :: 1"));
+    out.push(ln(0, "Df :: fn -> int do ret 1 end"));
+    out.push(ln(0, "Db :: blob {"));
+    out.push(ln(1, "x: int,"));
+    out.push(ln(0, "}"));
+    out.push(ln(0, "De :: enum Ea, Eb end"));
     put(&mut out, Place::TopMid, 0);
     out.push(ln(0, "helper :: fn a: int, b: int -> int do"));
     out.push(ln(1, "c :: a + b"));
@@ -314,11 +430,11 @@ struct Style {
 
 /// Join lines; returns (text, 1-based character offset of the offending element, 1-based character offset of the
 /// first non-blank character of the planted form's first line).
-fn join(lines: &[Line], st: Style) -> (String, usize, usize) {
+fn join(lines: &[Line], st: Style) -> (String, usize, usize, usize) {
     let unit = if st.tabs { "\t" } else { "    " };
     let nl = if st.crlf { "\r\n" } else { "\n" };
     let mut s = String::new();
-    let (mut marker, mut fstart) = (0usize, 0usize);
+    let (mut marker, mut fstart, mut marker2) = (0usize, 0usize, 0usize);
     for l in lines {
         s.push_str(&unit.repeat(l.level));
         if l.fstart {
@@ -327,10 +443,13 @@ fn join(lines: &[Line], st: Style) -> (String, usize, usize) {
         if l.planted {
             marker = s.chars().count() + 1 + l.col;
         }
+        if l.planted2 {
+            marker2 = s.chars().count() + 1 + l.col2;
+        }
         s.push_str(&l.text.replace('\n', nl));
         s.push_str(nl);
     }
-    (s, marker, fstart)
+    (s, marker, fstart, marker2)
 }
 
 #[derive(Clone, Debug)]
@@ -354,8 +473,8 @@ fn case_at(idx: usize) -> Case {
     // same mixed-radix layout as SyltDiag!Case: kind fastest, then file, position, shape, rel
     let sh = shapes();
     let m = idx - 1;
-    let (nk, nf, np, ns) = (KINDS.len(), FILES.len(), POSS.len(), sh.len());
-    let kind = KINDS[m % nk];
+    let (nk, nf, np, ns) = (kinds().len(), FILES.len(), POSS.len(), sh.len());
+    let kind = kinds()[m % nk].as_str();
     let file = FILES[(m / nk) % nf];
     let pos = POSS[(m / (nk * nf)) % np];
     let shape = sh[(m / (nk * nf * np)) % ns].as_str();
@@ -376,7 +495,7 @@ fn case_at(idx: usize) -> Case {
 }
 
 fn n_cross() -> usize {
-    KINDS.len() * FILES.len() * POSS.len() * shapes().len() * RELS.len()
+    kinds().len() * FILES.len() * POSS.len() * shapes().len() * RELS.len()
 }
 
 fn case_json(c: &Case) -> Value {
@@ -410,6 +529,7 @@ struct Rendered {
     text: String,
     marker: usize,
     fstart: usize,
+    marker2: usize,
     leaf: String,
     twin: String,
     /// line on which leaf.sy and twin.sy define lv
@@ -451,26 +571,36 @@ fn render(c: &Case) -> Rendered {
     }
     let base_inserts = inserts.clone();
     let (flines, (eline, ecol)) = form(&c.kind, top);
+    let (eline2, ecol2) = form_elem2(&c.kind).unwrap_or((0, 0));
     for (j, (level, text)) in flines.iter().enumerate() {
-        let l = Line { level: *level, text: text.to_string(), planted: j + 1 == eline, col: ecol, fstart: j == 0 };
+        let l = Line {
+            level: *level,
+            text: text.to_string(),
+            planted: j + 1 == eline,
+            col: ecol,
+            fstart: j == 0,
+            planted2: j + 1 == eline2,
+            col2: ecol2,
+        };
         inserts.push((place_of(&c.pos, c.depth), l));
     }
     let mut planted = BTreeMap::new();
     let mut base = BTreeMap::new();
     let mut text = String::new();
-    let (mut marker, mut fstart) = (0, 0);
+    let (mut marker, mut fstart, mut marker2) = (0, 0, 0);
     for f in FILES.iter() {
         let p = path_of(f).to_string();
         if *f == c.file {
-            let (t, m, fs) = join(&template(f, c.depth, &inserts), st);
-            let (b, _, _) = join(&template(f, c.depth, &base_inserts), st);
+            let (t, m, fs, m2) = join(&template(f, c.depth, &inserts), st);
+            let (b, _, _, _) = join(&template(f, c.depth, &base_inserts), st);
             text = t.clone();
             marker = m;
             fstart = fs;
+            marker2 = m2;
             planted.insert(p.clone(), t);
             base.insert(p, b);
         } else {
-            let (t, _, _) = join(&template(f, 0, &[]), Style::default());
+            let (t, _, _, _) = join(&template(f, 0, &[]), Style::default());
             planted.insert(p.clone(), t.clone());
             base.insert(p, t);
         }
@@ -500,6 +630,7 @@ fn render(c: &Case) -> Rendered {
         text,
         marker,
         fstart,
+        marker2,
         leaf,
         twin,
         def_line,
@@ -511,15 +642,41 @@ fn abs(s: &str) -> String {
     s.chars().map(|c| if c.is_ascii() { c } else { '@' }).collect()
 }
 
+/// Compile an unplanted program: (accepted, first error). Many cases share their base program (it depends on file,
+/// position, shape and module layout, not on the kind), so results are kept per project text.
+fn compile_base(p: &Project) -> (bool, String) {
+    static CACHE: std::sync::OnceLock<std::sync::Mutex<std::collections::HashMap<String, (bool, String)>>> =
+        std::sync::OnceLock::new();
+    let cache = CACHE.get_or_init(Default::default);
+    let key = serde_json::to_string(&p.files).unwrap();
+    if let Some(hit) = cache.lock().unwrap().get(&key) {
+        return hit.clone();
+    }
+    let res = compile(p);
+    let err = match &res {
+        CompileResult::Err { errors, .. } => errors.first().map(|e| format!("{}:{} {}", e.file, e.line, e.rendered)).unwrap_or_default(),
+        CompileResult::Panic { message, .. } => message.clone(),
+        _ => String::new(),
+    };
+    let out = (res.is_ok(), err);
+    cache.lock().unwrap().insert(key, out.clone());
+    out
+}
+
 /// (record for TLC, full case with the raw files for replays/evidence)
 fn run_case(c: &Case) -> (Value, Value) {
     let r = render(c);
-    let base_res = compile(&r.base);
+    let (base_ok, base_err) = compile_base(&r.base);
     let res = compile(&r.planted);
     let stub = std::env::var("C15_STUB").ok();
     let (efile, mut eline, nerr) = match &res {
         CompileResult::Err { errors, .. } if !errors.is_empty() => (errors[0].file.clone(), errors[0].line, errors.len()),
         _ => (String::new(), 0, 0),
+    };
+    // the second error (forms with two offending elements)
+    let (efile2, eline2) = match &res {
+        CompileResult::Err { errors, .. } if errors.len() > 1 => (errors[1].file.clone(), errors[1].line),
+        _ => (String::new(), 0),
     };
     if stub.as_deref() == Some("line1") && eline > 0 {
         eline = 1;
@@ -543,23 +700,37 @@ fn run_case(c: &Case) -> (Value, Value) {
         // the error is located at the first token of the enclosing statement instead of at the offending element
         let from: String = r.text.chars().take(r.fstart - 1).collect();
         let upto: String = r.text.chars().take(r.marker - 1).collect();
-        eline -= upto.matches('\n').count() - from.matches('\n').count();
+        eline = eline.saturating_sub(upto.matches('\n').count() - from.matches('\n').count()).max(1);
     }
     if stub.as_deref() == Some("xfile") && eline > 0 && is_from_kind(&c.kind) && c.rel == "def_later" {
         // line numbers related across files: the imported name's own definition "is written later"
         efile = "leaf.sy".to_string();
         eline = r.def_line;
     }
+    if stub.as_deref() == Some("first") && eline > 0 {
+        // a duplicate definition reported where the name was written FIRST
+        if let Some((_, of)) = dd_pair(&c.kind) {
+            let spelling = format!("{} :: ", DEF_FORMS[of].2);
+            if let Some(i) = r.text.split('\n').position(|l| l.trim_start().starts_with(&spelling)) {
+                efile = r.path.clone();
+                eline = i + 1;
+            }
+        }
+    }
+    if stub.as_deref() == Some("decoy") && eline > 1 && efile == r.path && c.kind.starts_with("conflict") {
+        // a begin marker that is no conflict, passed earlier in the file, costs the scan a line
+        let before: String = r.text.chars().take(r.fstart - 1).collect();
+        if before.contains("<<<<<<<") {
+            eline -= 1;
+        }
+    }
     let trace = json!({
         "idx": c.idx, "kind": c.kind, "file": c.file, "pos": c.pos, "shape": c.shape, "rel": c.rel,
-        "path": r.path, "text": abs(&r.text), "marker": r.marker, "fstart": r.fstart, "leaf": r.leaf, "twin": r.twin,
-        "base_ok": base_res.is_ok(), "res": res.class(), "efile": efile, "eline": eline,
+        "path": r.path, "text": abs(&r.text), "marker": r.marker, "fstart": r.fstart, "marker2": r.marker2,
+        "leaf": r.leaf, "twin": r.twin,
+        "base_ok": base_ok, "res": res.class(), "efile": efile, "eline": eline,
+        "efile2": efile2, "eline2": eline2,
     });
-    let base_err = match &base_res {
-        CompileResult::Err { errors, .. } => errors.first().map(|e| format!("{}:{} {}", e.file, e.line, e.rendered)).unwrap_or_default(),
-        CompileResult::Panic { message, .. } => message.clone(),
-        _ => String::new(),
-    };
     let first = match &res {
         CompileResult::Err { errors, .. } => errors.first().map(|e| e.rendered.clone()).unwrap_or_default(),
         CompileResult::Panic { message, .. } => message.clone(),
@@ -567,8 +738,8 @@ fn run_case(c: &Case) -> (Value, Value) {
     };
     let full = json!({
         "case": case_json(c), "files": r.planted.files, "path": r.path, "marker": r.marker,
-        "base_ok": base_res.is_ok(), "base_error": base_err, "res": res.class(), "n_errors": nerr,
-        "efile": efile, "eline": eline, "first_error_rendered": first,
+        "base_ok": base_ok, "base_error": base_err, "res": res.class(), "n_errors": nerr,
+        "efile": efile, "eline": eline, "efile2": efile2, "eline2": eline2, "first_error_rendered": first,
     });
     (trace, full)
 }
@@ -590,7 +761,7 @@ fn free_case(idx: usize, rng: &mut rand::rngs::StdRng) -> Case {
     const PL: [&str; 6] = ["top_first", "top_mid", "top_last", "fn_body", "if_branch", "nested"];
     let line_shapes: Vec<String> = shapes().into_iter().filter(|s| shape_lines(s, 1, true).is_some()).collect();
     loop {
-        let kind = KINDS[rng.gen_range(0..KINDS.len())];
+        let kind = kinds()[rng.gen_range(0..kinds().len())].as_str();
         let pos = PL[rng.gen_range(0..PL.len())];
         let rel = if is_from_kind(kind) { RELS[rng.gen_range(0..RELS.len())] } else { RELS[0] };
         if !applicable(kind, pos, rel) {
